@@ -1,2 +1,1056 @@
-//! Reference interpreter (stub until built).
-pub fn supports(_name: &str) -> bool { true }
+//! Reference interpreter over wasmparser operators (DESIGN §3.3).
+//! Links wasmparser only; used differentially (input vs walrus output), so
+//! what matters is that every immediate and every index takes part in the
+//! semantics and that execution is deterministic.
+
+use std::collections::HashMap;
+use wasmparser::{BlockType, MemArg, Operator, Parser, Payload, ValType};
+
+#[derive(Clone, Copy, Debug, PartialEq)]
+pub enum Val {
+    I32(i32),
+    I64(i64),
+    F32(u32),
+    F64(u64),
+    V128(u128),
+    /// function reference: Some(function address in this instance's store)
+    FuncRef(Option<u32>),
+    /// host token
+    ExternRef(Option<u32>),
+}
+
+impl Val {
+    pub fn default_for(t: ValType) -> Val {
+        match t {
+            ValType::I32 => Val::I32(0),
+            ValType::I64 => Val::I64(0),
+            ValType::F32 => Val::F32(0),
+            ValType::F64 => Val::F64(0),
+            ValType::V128 => Val::V128(0),
+            ValType::Ref(r) if r == wasmparser::RefType::EXTERNREF => Val::ExternRef(None),
+            ValType::Ref(_) => Val::FuncRef(None),
+        }
+    }
+    /// comparable rendering: function references compare by null-ness only
+    /// (indices differ between the two binaries)
+    pub fn observable(&self) -> String {
+        match self {
+            Val::FuncRef(Some(_)) => "funcref(non-null)".into(),
+            Val::FuncRef(None) => "funcref(null)".into(),
+            v => format!("{:?}", v),
+        }
+    }
+}
+
+#[derive(Clone, Debug, PartialEq)]
+pub enum Trap {
+    Unreachable,
+    MemoryOutOfBounds,
+    TableOutOfBounds,
+    UninitializedElement,
+    IndirectCallTypeMismatch,
+    IntegerDivideByZero,
+    IntegerOverflow,
+    InvalidConversionToInteger,
+    UnalignedAtomic,
+    AtomicWaitNonShared,
+    /// not a semantic outcome: the case is inconclusive
+    OutOfFuel,
+    CallStackExhausted,
+    WouldBlock,
+    Unsupported(String),
+}
+
+impl Trap {
+    pub fn inconclusive(&self) -> bool {
+        matches!(
+            self,
+            Trap::OutOfFuel | Trap::CallStackExhausted | Trap::WouldBlock | Trap::Unsupported(_)
+        )
+    }
+}
+
+#[derive(Clone, Debug)]
+pub struct FuncType {
+    pub params: Vec<ValType>,
+    pub results: Vec<ValType>,
+}
+
+pub struct FuncBody<'a> {
+    pub ty: u32,
+    pub locals: Vec<ValType>,
+    pub ops: Vec<Operator<'a>>,
+    /// for Block/Loop/If at index i: (else index or usize::MAX, end index)
+    pub ctrl: HashMap<usize, (usize, usize)>,
+}
+
+#[derive(Clone, Debug)]
+pub enum ImportDesc {
+    Func(u32),
+    Table(wasmparser::TableType),
+    Memory(wasmparser::MemoryType),
+    Global(wasmparser::GlobalType),
+}
+
+pub struct ElemSeg<'a> {
+    pub active: Option<(u32, Vec<Operator<'a>>)>,
+    pub declared: bool,
+    pub items: Vec<Vec<Operator<'a>>>, // each item as a const expr (funcs become ref.func)
+    pub ty: ValType,
+}
+
+pub struct DataSeg<'a> {
+    pub active: Option<(u32, Vec<Operator<'a>>)>,
+    pub bytes: &'a [u8],
+}
+
+pub struct Module<'a> {
+    pub types: Vec<FuncType>,
+    pub imports: Vec<(String, String, ImportDesc)>,
+    pub func_types: Vec<u32>, // whole index space
+    pub n_imp_funcs: usize,
+    pub bodies: Vec<FuncBody<'a>>,
+    pub tables: Vec<wasmparser::TableType>, // whole index space
+    pub n_imp_tables: usize,
+    pub mems: Vec<wasmparser::MemoryType>,
+    pub n_imp_mems: usize,
+    pub globals: Vec<wasmparser::GlobalType>,
+    pub n_imp_globals: usize,
+    pub global_inits: Vec<Vec<Operator<'a>>>,
+    pub exports: Vec<(String, wasmparser::ExternalKind, u32)>,
+    pub start: Option<u32>,
+    pub elems: Vec<ElemSeg<'a>>,
+    pub datas: Vec<DataSeg<'a>>,
+}
+
+fn read_const<'a>(e: &wasmparser::ConstExpr<'a>) -> anyhow::Result<Vec<Operator<'a>>> {
+    let mut v = Vec::new();
+    let mut r = e.get_operators_reader();
+    while !r.eof() {
+        v.push(r.read()?);
+    }
+    Ok(v)
+}
+
+pub fn load(bytes: &[u8]) -> anyhow::Result<Module<'_>> {
+    let mut m = Module {
+        types: vec![],
+        imports: vec![],
+        func_types: vec![],
+        n_imp_funcs: 0,
+        bodies: vec![],
+        tables: vec![],
+        n_imp_tables: 0,
+        mems: vec![],
+        n_imp_mems: 0,
+        globals: vec![],
+        n_imp_globals: 0,
+        global_inits: vec![],
+        exports: vec![],
+        start: None,
+        elems: vec![],
+        datas: vec![],
+    };
+    let mut parser = Parser::new(0);
+    parser.set_features(wasmparser::WasmFeatures::all());
+    let mut local_func_types = Vec::new();
+    for p in parser.parse_all(bytes) {
+        match p? {
+            Payload::TypeSection(s) => {
+                for t in s.into_iter_err_on_gc_types() {
+                    let t = t?;
+                    m.types.push(FuncType {
+                        params: t.params().to_vec(),
+                        results: t.results().to_vec(),
+                    });
+                }
+            }
+            Payload::ImportSection(s) => {
+                for i in s {
+                    let i = i?;
+                    let d = match i.ty {
+                        wasmparser::TypeRef::Func(t) => {
+                            m.func_types.push(t);
+                            m.n_imp_funcs += 1;
+                            ImportDesc::Func(t)
+                        }
+                        wasmparser::TypeRef::Table(t) => {
+                            m.tables.push(t);
+                            m.n_imp_tables += 1;
+                            ImportDesc::Table(t)
+                        }
+                        wasmparser::TypeRef::Memory(t) => {
+                            m.mems.push(t);
+                            m.n_imp_mems += 1;
+                            ImportDesc::Memory(t)
+                        }
+                        wasmparser::TypeRef::Global(t) => {
+                            m.globals.push(t);
+                            m.n_imp_globals += 1;
+                            ImportDesc::Global(t)
+                        }
+                        wasmparser::TypeRef::Tag(_) => anyhow::bail!("tags unsupported"),
+                    };
+                    m.imports.push((i.module.to_string(), i.name.to_string(), d));
+                }
+            }
+            Payload::FunctionSection(s) => {
+                for f in s {
+                    let f = f?;
+                    m.func_types.push(f);
+                    local_func_types.push(f);
+                }
+            }
+            Payload::TableSection(s) => {
+                for t in s {
+                    m.tables.push(t?.ty);
+                }
+            }
+            Payload::MemorySection(s) => {
+                for t in s {
+                    m.mems.push(t?);
+                }
+            }
+            Payload::GlobalSection(s) => {
+                for g in s {
+                    let g = g?;
+                    m.globals.push(g.ty);
+                    m.global_inits.push(read_const(&g.init_expr)?);
+                }
+            }
+            Payload::ExportSection(s) => {
+                for e in s {
+                    let e = e?;
+                    m.exports.push((e.name.to_string(), e.kind, e.index));
+                }
+            }
+            Payload::StartSection { func, .. } => m.start = Some(func),
+            Payload::ElementSection(s) => {
+                for e in s {
+                    let e = e?;
+                    let (active, declared) = match e.kind {
+                        wasmparser::ElementKind::Active { table_index, offset_expr } => {
+                            (Some((table_index.unwrap_or(0), read_const(&offset_expr)?)), false)
+                        }
+                        wasmparser::ElementKind::Passive => (None, false),
+                        wasmparser::ElementKind::Declared => (None, true),
+                    };
+                    let (items, ty) = match e.items {
+                        wasmparser::ElementItems::Functions(r) => {
+                            let mut v = Vec::new();
+                            for f in r {
+                                v.push(vec![Operator::RefFunc { function_index: f? }, Operator::End]);
+                            }
+                            (v, ValType::FUNCREF)
+                        }
+                        wasmparser::ElementItems::Expressions(rt, r) => {
+                            let mut v = Vec::new();
+                            for x in r {
+                                v.push(read_const(&x?)?);
+                            }
+                            (v, ValType::Ref(rt))
+                        }
+                    };
+                    m.elems.push(ElemSeg {
+                        active,
+                        declared,
+                        items,
+                        ty,
+                    });
+                }
+            }
+            Payload::DataSection(s) => {
+                for d in s {
+                    let d = d?;
+                    let active = match d.kind {
+                        wasmparser::DataKind::Active { memory_index, offset_expr } => {
+                            Some((memory_index, read_const(&offset_expr)?))
+                        }
+                        wasmparser::DataKind::Passive => None,
+                    };
+                    m.datas.push(DataSeg { active, bytes: d.data });
+                }
+            }
+            Payload::CodeSectionEntry(body) => {
+                let idx = m.bodies.len();
+                let mut locals = Vec::new();
+                for l in body.get_locals_reader()? {
+                    let (n, t) = l?;
+                    if locals.len() + n as usize > 100_000 {
+                        anyhow::bail!("too many locals");
+                    }
+                    for _ in 0..n {
+                        locals.push(t);
+                    }
+                }
+                let mut ops = Vec::new();
+                let mut r = body.get_operators_reader()?;
+                while !r.eof() {
+                    ops.push(r.read()?);
+                }
+                // control structure
+                let mut ctrl = HashMap::new();
+                let mut stack: Vec<(usize, usize)> = Vec::new(); // (start, else)
+                for (i, op) in ops.iter().enumerate() {
+                    match op {
+                        Operator::Block { .. } | Operator::Loop { .. } | Operator::If { .. } => {
+                            stack.push((i, usize::MAX))
+                        }
+                        Operator::Else => {
+                            if let Some(top) = stack.last_mut() {
+                                top.1 = i;
+                            }
+                        }
+                        Operator::End => {
+                            if let Some((s, e)) = stack.pop() {
+                                ctrl.insert(s, (e, i));
+                            }
+                        }
+                        _ => {}
+                    }
+                }
+                m.bodies.push(FuncBody {
+                    ty: *local_func_types.get(idx).unwrap_or(&0),
+                    locals,
+                    ops,
+                    ctrl,
+                });
+            }
+            _ => {}
+        }
+    }
+    Ok(m)
+}
+
+// ---------------------------------------------------------------------------
+
+pub struct TableInst {
+    pub elems: Vec<Val>,
+    pub max: Option<u64>,
+    pub null: Val,
+}
+
+pub struct MemInst {
+    pub data: Vec<u8>,
+    pub max_pages: u64,
+    pub shared: bool,
+}
+
+#[derive(Clone, Debug, PartialEq)]
+pub struct HostCall {
+    pub module: String,
+    pub name: String,
+    pub args: Vec<String>,
+    pub results: Vec<String>,
+}
+
+pub const PAGE: usize = 65536;
+const MAX_PAGES_CAP: u64 = 8;
+const TABLE_CAP: u64 = 64;
+
+pub struct Instance<'a> {
+    pub m: &'a Module<'a>,
+    pub tables: Vec<TableInst>,
+    pub mems: Vec<MemInst>,
+    pub globals: Vec<Val>,
+    pub dropped_data: Vec<bool>,
+    pub dropped_elem: Vec<bool>,
+    pub trace: Vec<HostCall>,
+    pub fuel: u64,
+    pub depth: usize,
+    pub host_seed: u64,
+    pub host_calls: u64,
+    pub ops_executed: u64,
+}
+
+fn fnv64(data: &[u8], seed: u64) -> u64 {
+    let mut h: u64 = 0xcbf29ce484222325 ^ seed;
+    for b in data {
+        h ^= *b as u64;
+        h = h.wrapping_mul(0x100000001b3);
+    }
+    h ^ (h >> 29)
+}
+
+fn host_val(t: ValType, h: u64) -> Val {
+    match t {
+        ValType::I32 => Val::I32((h % 5) as i32 + if h & 0xf00 == 0 { (h >> 40) as i32 } else { 0 } - if h & 0xf000 == 0 { 2 } else { 0 }),
+        ValType::I64 => Val::I64((h % 5) as i64 + if h & 0xf00 == 0 { (h >> 20) as i64 } else { 0 } - if h & 0xf000 == 0 { 2 } else { 0 }),
+        ValType::F32 => Val::F32(((h % 16) as f32 * 0.5).to_bits()),
+        ValType::F64 => Val::F64(((h % 16) as f64 * 0.25).to_bits()),
+        ValType::V128 => Val::V128((h as u128) << 64 | (h.rotate_left(17) as u128)),
+        ValType::Ref(r) if r == wasmparser::RefType::EXTERNREF => {
+            if h % 3 == 0 {
+                Val::ExternRef(None)
+            } else {
+                Val::ExternRef(Some((h % 1000) as u32))
+            }
+        }
+        ValType::Ref(_) => Val::FuncRef(None),
+    }
+}
+
+macro_rules! pop {
+    ($st:expr, $v:ident) => {
+        match $st.pop() {
+            Some(Val::$v(x)) => x,
+            other => return Err(Trap::Unsupported(format!("stack type confusion: wanted {} got {:?}", stringify!($v), other))),
+        }
+    };
+}
+
+impl<'a> Instance<'a> {
+    pub fn instantiate(m: &'a Module<'a>, host_seed: u64, fuel: u64) -> Result<Instance<'a>, Trap> {
+        let mut inst = Instance {
+            m,
+            tables: vec![],
+            mems: vec![],
+            globals: vec![],
+            dropped_data: vec![false; m.datas.len()],
+            dropped_elem: vec![false; m.elems.len()],
+            trace: vec![],
+            fuel,
+            depth: 0,
+            host_seed,
+            host_calls: 0,
+            ops_executed: 0,
+        };
+        // imported state is created by the host from the import's name and type
+        for (module, name, d) in &m.imports {
+            let h = fnv64(format!("{}::{}", module, name).as_bytes(), host_seed);
+            match d {
+                ImportDesc::Table(t) => inst.tables.push(Self::mk_table(t)),
+                ImportDesc::Memory(t) => {
+                    let mut mem = Self::mk_mem(t);
+                    // a recognisable pattern so that reads are not all zero
+                    for (i, b) in mem.data.iter_mut().enumerate().take(256) {
+                        *b = (h as u8).wrapping_add(i as u8);
+                    }
+                    inst.mems.push(mem);
+                }
+                ImportDesc::Global(g) => inst.globals.push(host_val(g.content_type, h)),
+                ImportDesc::Func(_) => {}
+            }
+        }
+        for t in &m.tables[m.n_imp_tables..] {
+            inst.tables.push(Self::mk_table(t));
+        }
+        for t in &m.mems[m.n_imp_mems..] {
+            inst.mems.push(Self::mk_mem(t));
+        }
+        for init in &m.global_inits {
+            let v = inst.eval_const(init)?;
+            inst.globals.push(v);
+        }
+        // element segments, then data segments, in order
+        for (i, e) in m.elems.iter().enumerate() {
+            if let Some((table, off)) = &e.active {
+                let off = inst.eval_offset(off)?;
+                let mut vals = Vec::new();
+                for it in &e.items {
+                    vals.push(inst.eval_const(it)?);
+                }
+                let t = inst.tables.get_mut(*table as usize).ok_or(Trap::TableOutOfBounds)?;
+                let end = off.checked_add(vals.len() as u64).ok_or(Trap::TableOutOfBounds)?;
+                if end > t.elems.len() as u64 {
+                    return Err(Trap::TableOutOfBounds);
+                }
+                for (k, v) in vals.into_iter().enumerate() {
+                    t.elems[off as usize + k] = v;
+                }
+                inst.dropped_elem[i] = true;
+            } else if e.declared {
+                inst.dropped_elem[i] = true;
+            }
+        }
+        for (i, d) in m.datas.iter().enumerate() {
+            if let Some((mem, off)) = &d.active {
+                let off = inst.eval_offset(off)?;
+                let mm = inst.mems.get_mut(*mem as usize).ok_or(Trap::MemoryOutOfBounds)?;
+                let end = off.checked_add(d.bytes.len() as u64).ok_or(Trap::MemoryOutOfBounds)?;
+                if end > mm.data.len() as u64 {
+                    return Err(Trap::MemoryOutOfBounds);
+                }
+                mm.data[off as usize..end as usize].copy_from_slice(d.bytes);
+                inst.dropped_data[i] = true;
+            }
+        }
+        if let Some(s) = m.start {
+            inst.invoke(s, vec![])?;
+        }
+        Ok(inst)
+    }
+
+    fn mk_table(t: &wasmparser::TableType) -> TableInst {
+        let null = if t.element_type == wasmparser::RefType::EXTERNREF {
+            Val::ExternRef(None)
+        } else {
+            Val::FuncRef(None)
+        };
+        TableInst {
+            elems: vec![null; t.initial.min(TABLE_CAP) as usize],
+            max: t.maximum,
+            null,
+        }
+    }
+
+    fn mk_mem(t: &wasmparser::MemoryType) -> MemInst {
+        let pages = t.initial.min(MAX_PAGES_CAP);
+        MemInst {
+            data: vec![0; pages as usize * PAGE],
+            max_pages: t.maximum.unwrap_or(MAX_PAGES_CAP).min(MAX_PAGES_CAP),
+            shared: t.shared,
+        }
+    }
+
+    fn eval_const(&self, ops: &[Operator<'a>]) -> Result<Val, Trap> {
+        match ops.first() {
+            Some(Operator::I32Const { value }) => Ok(Val::I32(*value)),
+            Some(Operator::I64Const { value }) => Ok(Val::I64(*value)),
+            Some(Operator::F32Const { value }) => Ok(Val::F32(value.bits())),
+            Some(Operator::F64Const { value }) => Ok(Val::F64(value.bits())),
+            Some(Operator::V128Const { value }) => Ok(Val::V128(u128::from_le_bytes(*value.bytes()))),
+            Some(Operator::GlobalGet { global_index }) => self
+                .globals
+                .get(*global_index as usize)
+                .copied()
+                .ok_or_else(|| Trap::Unsupported("const global out of range".into())),
+            Some(Operator::RefNull { hty }) => Ok(if *hty == wasmparser::HeapType::EXTERN {
+                Val::ExternRef(None)
+            } else {
+                Val::FuncRef(None)
+            }),
+            Some(Operator::RefFunc { function_index }) => Ok(Val::FuncRef(Some(*function_index))),
+            other => Err(Trap::Unsupported(format!("const expr {:?}", other))),
+        }
+    }
+
+    fn eval_offset(&self, ops: &[Operator<'a>]) -> Result<u64, Trap> {
+        match self.eval_const(ops)? {
+            Val::I32(v) => Ok(v as u32 as u64),
+            Val::I64(v) => Ok(v as u64),
+            other => Err(Trap::Unsupported(format!("offset {:?}", other))),
+        }
+    }
+
+    pub fn func_type(&self, f: u32) -> Option<&FuncType> {
+        self.m.types.get(*self.m.func_types.get(f as usize)? as usize)
+    }
+
+    /// call any function of the index space
+    pub fn invoke(&mut self, mut f: u32, mut args: Vec<Val>) -> Result<Vec<Val>, Trap> {
+        if self.depth > 200 {
+            return Err(Trap::CallStackExhausted);
+        }
+        self.depth += 1;
+        let r = loop {
+            if (f as usize) < self.m.n_imp_funcs {
+                break self.host_call(f, args);
+            }
+            match self.exec(f, args) {
+                Ok(Flow::Return(v)) => break Ok(v),
+                Ok(Flow::TailCall(g, a)) => {
+                    f = g;
+                    args = a;
+                }
+                Err(t) => break Err(t),
+            }
+        };
+        self.depth -= 1;
+        r
+    }
+
+    fn host_call(&mut self, f: u32, args: Vec<Val>) -> Result<Vec<Val>, Trap> {
+        // position among function imports
+        let mut k = 0;
+        let mut found = None;
+        for (module, name, d) in &self.m.imports {
+            if let ImportDesc::Func(_) = d {
+                if k == f {
+                    found = Some((module.clone(), name.clone()));
+                    break;
+                }
+                k += 1;
+            }
+        }
+        let (module, name) = found.ok_or_else(|| Trap::Unsupported("host func".into()))?;
+        let ty = self.func_type(f).cloned().ok_or_else(|| Trap::Unsupported("host type".into()))?;
+        self.host_calls += 1;
+        let argstr: Vec<String> = args.iter().map(|v| v.observable()).collect();
+        let h = fnv64(
+            format!("{}::{}({:?})#{}", module, name, argstr, self.host_calls).as_bytes(),
+            self.host_seed,
+        );
+        let results: Vec<Val> = ty
+            .results
+            .iter()
+            .enumerate()
+            .map(|(i, t)| host_val(*t, h.rotate_left(i as u32 * 7)))
+            .collect();
+        self.trace.push(HostCall {
+            module,
+            name,
+            args: argstr,
+            results: results.iter().map(|v| v.observable()).collect(),
+        });
+        Ok(results)
+    }
+
+    fn block_arity(&self, bt: &BlockType) -> (usize, usize) {
+        match bt {
+            BlockType::Empty => (0, 0),
+            BlockType::Type(_) => (0, 1),
+            BlockType::FuncType(i) => self
+                .m
+                .types
+                .get(*i as usize)
+                .map(|t| (t.params.len(), t.results.len()))
+                .unwrap_or((0, 0)),
+        }
+    }
+
+    fn ea(&self, mem: u32, addr: u64, m: &MemArg, size: usize) -> Result<usize, Trap> {
+        let mm = self.mems.get(mem as usize).ok_or(Trap::MemoryOutOfBounds)?;
+        let ea = addr.checked_add(m.offset).ok_or(Trap::MemoryOutOfBounds)?;
+        let end = ea.checked_add(size as u64).ok_or(Trap::MemoryOutOfBounds)?;
+        if end > mm.data.len() as u64 {
+            return Err(Trap::MemoryOutOfBounds);
+        }
+        Ok(ea as usize)
+    }
+
+    fn pop_addr(&self, st: &mut Vec<Val>, mem: u32) -> Result<u64, Trap> {
+        let m64 = self.m.mems.get(mem as usize).map(|m| m.memory64).unwrap_or(false);
+        match st.pop() {
+            Some(Val::I32(a)) if !m64 => Ok(a as u32 as u64),
+            Some(Val::I64(a)) if m64 => Ok(a as u64),
+            other => Err(Trap::Unsupported(format!("address {:?}", other))),
+        }
+    }
+
+    fn push_idx(&self, st: &mut Vec<Val>, is64: bool, v: u64) {
+        if is64 {
+            st.push(Val::I64(v as i64));
+        } else {
+            st.push(Val::I32(v as u32 as i32));
+        }
+    }
+
+    fn pop_table_idx(&self, st: &mut Vec<Val>, table: u32) -> Result<u64, Trap> {
+        let t64 = self.m.tables.get(table as usize).map(|t| t.table64).unwrap_or(false);
+        match st.pop() {
+            Some(Val::I32(a)) if !t64 => Ok(a as u32 as u64),
+            Some(Val::I64(a)) if t64 => Ok(a as u64),
+            other => Err(Trap::Unsupported(format!("table index {:?}", other))),
+        }
+    }
+
+    fn load_bytes<const N: usize>(&self, mem: u32, st: &mut Vec<Val>, m: &MemArg) -> Result<[u8; N], Trap> {
+        let a = self.pop_addr(st, m.memory)?;
+        let _ = mem;
+        let ea = self.ea(m.memory, a, m, N)?;
+        let mut b = [0u8; N];
+        b.copy_from_slice(&self.mems[m.memory as usize].data[ea..ea + N]);
+        Ok(b)
+    }
+
+    fn store_bytes(&mut self, st: &mut Vec<Val>, m: &MemArg, bytes: &[u8]) -> Result<(), Trap> {
+        let a = self.pop_addr(st, m.memory)?;
+        let ea = self.ea(m.memory, a, m, bytes.len())?;
+        self.mems[m.memory as usize].data[ea..ea + bytes.len()].copy_from_slice(bytes);
+        Ok(())
+    }
+
+    fn atomic_ea(&self, st: &mut Vec<Val>, m: &MemArg, size: usize) -> Result<usize, Trap> {
+        let a = self.pop_addr(st, m.memory)?;
+        let ea = self.ea(m.memory, a, m, size)?;
+        if ea % size != 0 {
+            return Err(Trap::UnalignedAtomic);
+        }
+        Ok(ea)
+    }
+}
+
+enum Flow {
+    Return(Vec<Val>),
+    TailCall(u32, Vec<Val>),
+}
+
+struct Label {
+    /// values a branch to this label carries
+    arity: usize,
+    /// value-stack height at entry (below the parameters)
+    height: usize,
+    /// pc to continue at when branched to
+    target: usize,
+    is_loop: bool,
+}
+
+mod num;
+
+impl<'a> Instance<'a> {
+    fn exec(&mut self, f: u32, args: Vec<Val>) -> Result<Flow, Trap> {
+        let m = self.m;
+        let body = &m.bodies[f as usize - m.n_imp_funcs];
+        let fty = &m.types[body.ty as usize];
+        let mut locals = args;
+        for l in &body.locals {
+            locals.push(Val::default_for(*l));
+        }
+        let mut st: Vec<Val> = Vec::new();
+        let mut labels: Vec<Label> = vec![Label {
+            arity: fty.results.len(),
+            height: 0,
+            target: body.ops.len(),
+            is_loop: false,
+        }];
+        let mut pc = 0usize;
+        let ops = &body.ops;
+
+        macro_rules! branch {
+            ($depth:expr) => {{
+                let d = $depth as usize;
+                let idx = labels.len() - 1 - d;
+                let (arity, height, target, is_loop) = {
+                    let l = &labels[idx];
+                    (l.arity, l.height, l.target, l.is_loop)
+                };
+                let keep: Vec<Val> = st.split_off(st.len() - arity);
+                st.truncate(height);
+                st.extend(keep);
+                if is_loop {
+                    labels.truncate(idx + 1);
+                } else {
+                    labels.truncate(idx);
+                }
+                pc = target;
+                if labels.is_empty() {
+                    return Ok(Flow::Return(st));
+                }
+                continue;
+            }};
+        }
+
+        loop {
+            if pc >= ops.len() {
+                return Ok(Flow::Return(st));
+            }
+            if self.fuel == 0 {
+                return Err(Trap::OutOfFuel);
+            }
+            self.fuel -= 1;
+            self.ops_executed += 1;
+            let op = &ops[pc];
+            match op {
+                Operator::Unreachable => return Err(Trap::Unreachable),
+                Operator::Nop => {}
+                Operator::Block { blockty } => {
+                    let (p, r) = self.block_arity(blockty);
+                    let (_, end) = body.ctrl[&pc];
+                    labels.push(Label {
+                        arity: r,
+                        height: st.len() - p,
+                        target: end + 1,
+                        is_loop: false,
+                    });
+                }
+                Operator::Loop { blockty } => {
+                    let (p, _r) = self.block_arity(blockty);
+                    labels.push(Label {
+                        arity: p,
+                        height: st.len() - p,
+                        target: pc + 1,
+                        is_loop: true,
+                    });
+                }
+                Operator::If { blockty } => {
+                    let c = pop!(st, I32);
+                    let (p, r) = self.block_arity(blockty);
+                    let (els, end) = body.ctrl[&pc];
+                    labels.push(Label {
+                        arity: r,
+                        height: st.len() - p,
+                        target: end + 1,
+                        is_loop: false,
+                    });
+                    if c == 0 {
+                        if els != usize::MAX {
+                            pc = els + 1;
+                            continue;
+                        } else {
+                            // no else: fall to end (which pops the label)
+                            pc = end;
+                            continue;
+                        }
+                    }
+                }
+                Operator::Else => {
+                    // end of the then-arm: jump to the end of the if
+                    let l = labels.pop().unwrap();
+                    pc = l.target;
+                    continue;
+                }
+                Operator::End => {
+                    labels.pop();
+                    if labels.is_empty() {
+                        return Ok(Flow::Return(st));
+                    }
+                }
+                Operator::Br { relative_depth } => branch!(*relative_depth),
+                Operator::BrIf { relative_depth } => {
+                    let c = pop!(st, I32);
+                    if c != 0 {
+                        branch!(*relative_depth)
+                    }
+                }
+                Operator::BrTable { targets } => {
+                    let i = pop!(st, I32) as u32;
+                    let mut d = targets.default();
+                    for (k, t) in targets.targets().enumerate() {
+                        if k as u32 == i {
+                            d = t.map_err(|e| Trap::Unsupported(e.to_string()))?;
+                            break;
+                        }
+                    }
+                    branch!(d)
+                }
+                Operator::Return => {
+                    let n = fty.results.len();
+                    let keep = st.split_off(st.len() - n);
+                    return Ok(Flow::Return(keep));
+                }
+                Operator::Call { function_index } => {
+                    let n = self.func_type(*function_index).map(|t| t.params.len()).unwrap_or(0);
+                    let a = st.split_off(st.len() - n);
+                    let r = self.invoke(*function_index, a)?;
+                    st.extend(r);
+                }
+                Operator::CallIndirect { type_index, table_index } | Operator::ReturnCallIndirect { type_index, table_index } => {
+                    let i = self.pop_table_idx(&mut st, *table_index)?;
+                    let t = self.tables.get(*table_index as usize).ok_or(Trap::TableOutOfBounds)?;
+                    let fr = *t.elems.get(i as usize).ok_or(Trap::TableOutOfBounds)?;
+                    let callee = match fr {
+                        Val::FuncRef(Some(c)) => c,
+                        Val::FuncRef(None) => return Err(Trap::UninitializedElement),
+                        _ => return Err(Trap::IndirectCallTypeMismatch),
+                    };
+                    let want = &m.types[*type_index as usize];
+                    let have = self.func_type(callee).ok_or(Trap::IndirectCallTypeMismatch)?;
+                    if want.params != have.params || want.results != have.results {
+                        return Err(Trap::IndirectCallTypeMismatch);
+                    }
+                    let n = want.params.len();
+                    let a = st.split_off(st.len() - n);
+                    if matches!(op, Operator::ReturnCallIndirect { .. }) {
+                        return Ok(Flow::TailCall(callee, a));
+                    }
+                    let r = self.invoke(callee, a)?;
+                    st.extend(r);
+                }
+                Operator::ReturnCall { function_index } => {
+                    let n = self.func_type(*function_index).map(|t| t.params.len()).unwrap_or(0);
+                    let a = st.split_off(st.len() - n);
+                    return Ok(Flow::TailCall(*function_index, a));
+                }
+                Operator::Drop => {
+                    st.pop();
+                }
+                Operator::Select | Operator::TypedSelect { .. } => {
+                    let c = pop!(st, I32);
+                    let b = st.pop().unwrap();
+                    let a = st.pop().unwrap();
+                    st.push(if c != 0 { a } else { b });
+                }
+                Operator::LocalGet { local_index } => st.push(locals[*local_index as usize]),
+                Operator::LocalSet { local_index } => locals[*local_index as usize] = st.pop().unwrap(),
+                Operator::LocalTee { local_index } => locals[*local_index as usize] = *st.last().unwrap(),
+                Operator::GlobalGet { global_index } => st.push(self.globals[*global_index as usize]),
+                Operator::GlobalSet { global_index } => self.globals[*global_index as usize] = st.pop().unwrap(),
+                Operator::I32Const { value } => st.push(Val::I32(*value)),
+                Operator::I64Const { value } => st.push(Val::I64(*value)),
+                Operator::F32Const { value } => st.push(Val::F32(value.bits())),
+                Operator::F64Const { value } => st.push(Val::F64(value.bits())),
+                Operator::V128Const { value } => st.push(Val::V128(u128::from_le_bytes(*value.bytes()))),
+                Operator::RefNull { hty } => st.push(if *hty == wasmparser::HeapType::EXTERN {
+                    Val::ExternRef(None)
+                } else {
+                    Val::FuncRef(None)
+                }),
+                Operator::RefIsNull => {
+                    let v = st.pop().unwrap();
+                    st.push(Val::I32(matches!(v, Val::FuncRef(None) | Val::ExternRef(None)) as i32));
+                }
+                Operator::RefFunc { function_index } => st.push(Val::FuncRef(Some(*function_index))),
+                // ---- memory ----
+                Operator::MemorySize { mem } => {
+                    let pages = (self.mems[*mem as usize].data.len() / PAGE) as u64;
+                    let is64 = m.mems[*mem as usize].memory64;
+                    self.push_idx(&mut st, is64, pages);
+                }
+                Operator::MemoryGrow { mem } => {
+                    let is64 = m.mems[*mem as usize].memory64;
+                    let delta = if is64 { pop!(st, I64) as u64 } else { pop!(st, I32) as u32 as u64 };
+                    let mm = &mut self.mems[*mem as usize];
+                    let cur = (mm.data.len() / PAGE) as u64;
+                    let new = cur.checked_add(delta);
+                    match new {
+                        Some(n) if n <= mm.max_pages => {
+                            mm.data.resize(n as usize * PAGE, 0);
+                            self.push_idx(&mut st, is64, cur);
+                        }
+                        _ => {
+                            if is64 {
+                                st.push(Val::I64(-1));
+                            } else {
+                                st.push(Val::I32(-1));
+                            }
+                        }
+                    }
+                }
+                Operator::MemoryFill { mem } => {
+                    let is64 = m.mems[*mem as usize].memory64;
+                    let n = if is64 { pop!(st, I64) as u64 } else { pop!(st, I32) as u32 as u64 };
+                    let v = pop!(st, I32) as u8;
+                    let d = if is64 { pop!(st, I64) as u64 } else { pop!(st, I32) as u32 as u64 };
+                    let mm = &mut self.mems[*mem as usize];
+                    let end = d.checked_add(n).ok_or(Trap::MemoryOutOfBounds)?;
+                    if end > mm.data.len() as u64 {
+                        return Err(Trap::MemoryOutOfBounds);
+                    }
+                    mm.data[d as usize..end as usize].fill(v);
+                }
+                Operator::MemoryCopy { dst_mem, src_mem } => {
+                    let d64 = m.mems[*dst_mem as usize].memory64;
+                    let s64 = m.mems[*src_mem as usize].memory64;
+                    let n64 = d64 && s64;
+                    let n = if n64 { pop!(st, I64) as u64 } else { pop!(st, I32) as u32 as u64 };
+                    let s = if s64 { pop!(st, I64) as u64 } else { pop!(st, I32) as u32 as u64 };
+                    let d = if d64 { pop!(st, I64) as u64 } else { pop!(st, I32) as u32 as u64 };
+                    let send = s.checked_add(n).ok_or(Trap::MemoryOutOfBounds)?;
+                    let dend = d.checked_add(n).ok_or(Trap::MemoryOutOfBounds)?;
+                    if send > self.mems[*src_mem as usize].data.len() as u64 || dend > self.mems[*dst_mem as usize].data.len() as u64 {
+                        return Err(Trap::MemoryOutOfBounds);
+                    }
+                    let tmp: Vec<u8> = self.mems[*src_mem as usize].data[s as usize..send as usize].to_vec();
+                    self.mems[*dst_mem as usize].data[d as usize..dend as usize].copy_from_slice(&tmp);
+                }
+                Operator::MemoryInit { data_index, mem } => {
+                    let n = pop!(st, I32) as u32 as u64;
+                    let s = pop!(st, I32) as u32 as u64;
+                    let is64 = m.mems[*mem as usize].memory64;
+                    let d = if is64 { pop!(st, I64) as u64 } else { pop!(st, I32) as u32 as u64 };
+                    let seg: &[u8] = if self.dropped_data[*data_index as usize] {
+                        &[]
+                    } else {
+                        m.datas[*data_index as usize].bytes
+                    };
+                    let send = s.checked_add(n).ok_or(Trap::MemoryOutOfBounds)?;
+                    let dend = d.checked_add(n).ok_or(Trap::MemoryOutOfBounds)?;
+                    if send > seg.len() as u64 || dend > self.mems[*mem as usize].data.len() as u64 {
+                        return Err(Trap::MemoryOutOfBounds);
+                    }
+                    let tmp = seg[s as usize..send as usize].to_vec();
+                    self.mems[*mem as usize].data[d as usize..dend as usize].copy_from_slice(&tmp);
+                }
+                Operator::DataDrop { data_index } => self.dropped_data[*data_index as usize] = true,
+                // ---- tables ----
+                Operator::TableGet { table } => {
+                    let i = self.pop_table_idx(&mut st, *table)?;
+                    let v = *self.tables[*table as usize].elems.get(i as usize).ok_or(Trap::TableOutOfBounds)?;
+                    st.push(v);
+                }
+                Operator::TableSet { table } => {
+                    let v = st.pop().unwrap();
+                    let i = self.pop_table_idx(&mut st, *table)?;
+                    let t = &mut self.tables[*table as usize];
+                    *t.elems.get_mut(i as usize).ok_or(Trap::TableOutOfBounds)? = v;
+                }
+                Operator::TableSize { table } => {
+                    let n = self.tables[*table as usize].elems.len() as u64;
+                    let t64 = m.tables[*table as usize].table64;
+                    self.push_idx(&mut st, t64, n);
+                }
+                Operator::TableGrow { table } => {
+                    let t64 = m.tables[*table as usize].table64;
+                    let delta = if t64 { pop!(st, I64) as u64 } else { pop!(st, I32) as u32 as u64 };
+                    let v = st.pop().unwrap();
+                    let t = &mut self.tables[*table as usize];
+                    let cur = t.elems.len() as u64;
+                    let cap = t.max.unwrap_or(TABLE_CAP).min(TABLE_CAP);
+                    match cur.checked_add(delta) {
+                        Some(n) if n <= cap => {
+                            t.elems.resize(n as usize, v);
+                            self.push_idx(&mut st, t64, cur);
+                        }
+                        _ => {
+                            if t64 {
+                                st.push(Val::I64(-1));
+                            } else {
+                                st.push(Val::I32(-1));
+                            }
+                        }
+                    }
+                }
+                Operator::TableFill { table } => {
+                    let t64 = m.tables[*table as usize].table64;
+                    let n = if t64 { pop!(st, I64) as u64 } else { pop!(st, I32) as u32 as u64 };
+                    let v = st.pop().unwrap();
+                    let i = self.pop_table_idx(&mut st, *table)?;
+                    let t = &mut self.tables[*table as usize];
+                    let end = i.checked_add(n).ok_or(Trap::TableOutOfBounds)?;
+                    if end > t.elems.len() as u64 {
+                        return Err(Trap::TableOutOfBounds);
+                    }
+                    for k in i..end {
+                        t.elems[k as usize] = v;
+                    }
+                }
+                Operator::TableCopy { dst_table, src_table } => {
+                    let d64 = m.tables[*dst_table as usize].table64;
+                    let s64 = m.tables[*src_table as usize].table64;
+                    let n = if d64 && s64 { pop!(st, I64) as u64 } else { pop!(st, I32) as u32 as u64 };
+                    let s = self.pop_table_idx(&mut st, *src_table)?;
+                    let d = self.pop_table_idx(&mut st, *dst_table)?;
+                    let send = s.checked_add(n).ok_or(Trap::TableOutOfBounds)?;
+                    let dend = d.checked_add(n).ok_or(Trap::TableOutOfBounds)?;
+                    if send > self.tables[*src_table as usize].elems.len() as u64 || dend > self.tables[*dst_table as usize].elems.len() as u64 {
+                        return Err(Trap::TableOutOfBounds);
+                    }
+                    let tmp: Vec<Val> = self.tables[*src_table as usize].elems[s as usize..send as usize].to_vec();
+                    self.tables[*dst_table as usize].elems[d as usize..dend as usize].copy_from_slice(&tmp);
+                }
+                Operator::TableInit { elem_index, table } => {
+                    let n = pop!(st, I32) as u32 as u64;
+                    let s = pop!(st, I32) as u32 as u64;
+                    let d = self.pop_table_idx(&mut st, *table)?;
+                    let seg_len = if self.dropped_elem[*elem_index as usize] {
+                        0
+                    } else {
+                        m.elems[*elem_index as usize].items.len() as u64
+                    };
+                    let send = s.checked_add(n).ok_or(Trap::TableOutOfBounds)?;
+                    let dend = d.checked_add(n).ok_or(Trap::TableOutOfBounds)?;
+                    if send > seg_len || dend > self.tables[*table as usize].elems.len() as u64 {
+                        return Err(Trap::TableOutOfBounds);
+                    }
+                    for k in 0..n {
+                        let v = self.eval_const(&m.elems[*elem_index as usize].items[(s + k) as usize])?;
+                        self.tables[*table as usize].elems[(d + k) as usize] = v;
+                    }
+                }
+                Operator::ElemDrop { elem_index } => self.dropped_elem[*elem_index as usize] = true,
+                Operator::AtomicFence => {}
+                other => {
+                    // numeric, memory access, atomics, simd: table-driven
+                    self.exec_numeric(other, &mut st)?;
+                }
+            }
+            pc += 1;
+        }
+    }
+}
+
+/// Operator names the interpreter implements (used by the exec generator).
+pub fn supports(name: &str) -> bool {
+    num::supports(name)
+}
